@@ -1,6 +1,7 @@
 import BM.Sanitize
 import BM.Props.Pins
 import BM.Proofs.Prov
+import BM.Proofs.ProvC
 /-
   C12: forced attributes.  Proved for every policy, element and attribute list:
   * with RequireCrossOriginAnonymous, what `sanitizeAttrs` returns for audio / img / link /
@@ -184,7 +185,7 @@ theorem C12_sanitizeAttrs (p : Policy) (el : Bytes) (attrs : List Attr) (aps : A
     HTML tokenizer reads from the returned bytes satisfies the forced-attribute postconditions —
     audio/img/link/script/video carry `crossorigin="anonymous"` and no other crossorigin value;
     iframe carries a sandbox attribute whose tokens are a duplicate-free subset of the allowed values. -/
-theorem C12_bytes (p : Policy) (hp : Plain p.ensureInit) (input : Bytes) :
+theorem C12_bytes (p : Policy) (hp : PlainC p.ensureInit) (input : Bytes) :
     ∀ k ∈ Html.tokenize (p.sanitizeCore input), (k.tt = .start ∨ k.tt = .selfClosing) → k.attrs ≠ [] →
       (p.ensureInit.requireCrossOriginAnonymous = true → isCrossOriginElement k.data = true →
         (∃ a ∈ k.attrs, a.key = b!"crossorigin") ∧ ∀ a ∈ k.attrs, a.key = b!"crossorigin" → a.val = b!"anonymous") ∧
@@ -193,7 +194,7 @@ theorem C12_bytes (p : Policy) (hp : Plain p.ensureInit) (input : Bytes) :
         ∀ a ∈ k.attrs, a.key = b!"sandbox" →
           ∃ toks : List Bytes, a.val = joinBytes [32] toks ∧ toks.Nodup ∧ ∀ v ∈ toks, v ∈ allowed) := by
   intro k hk htt hne
-  obtain ⟨t, _, aps, _, _, hs⟩ := reread_open_tag p hp input k hk htt hne
+  obtain ⟨t, _, aps, _, _, hs⟩ := reread_open_tagC p hp input k hk htt hne
   exact C12_sanitizeAttrs p.ensureInit k.data t.attrs aps k.attrs hs hne
 
 /-- non-vacuity -/
